@@ -23,6 +23,7 @@ def main() -> int:
     a = ap.parse_args()
     seed = int(os.environ.get("VERIF_SEED", "0"))
     pid = a.pid.upper()
+    os.environ["VERIF_PID"] = pid
     try:
         mod = importlib.import_module(f"props.{pid.lower()}")
     except ModuleNotFoundError as e:
